@@ -206,6 +206,27 @@ func cmdCheck(args []string) int {
 	for name := range claimed {
 		classTotal[classOf(name)]++
 	}
+	// a function under contract whose panic-class obligations (index, slice, nil dereference, make,
+	// division, type assertion, explicit panic, close, map write) were all claimed on the unchanged
+	// tree is panic-free there: a new failing obligation of that class in it is a violation even
+	// if its kind did not occur in the function before
+	panicKinds := map[string]bool{"index": true, "slice": true, "deref": true, "make": true, "div": true, "assert": true, "panic": true, "close": true, "mapwrite": true, "shift": true}
+	topOf := func(name string) string {
+		if i := strings.IndexAny(name, "#/"); i >= 0 {
+			return name[:i]
+		}
+		return name
+	}
+	hasClaim := map[string]bool{}
+	hasUnclaimedPanic := map[string]bool{}
+	for name := range claimed {
+		hasClaim[topOf(name)] = true
+	}
+	for name := range baseline.Unclaimed[id] {
+		if panicKinds[kindOf(name)] {
+			hasUnclaimedPanic[topOf(name)] = true
+		}
+	}
 	isKnown := func(name string) *Finding {
 		for i := range known.Findings {
 			f := &known.Findings[i]
@@ -367,6 +388,9 @@ func cmdCheck(args []string) int {
 			}
 			newUnclaimed[ob.Name] = ob.Status
 			inClaimedClass := classTotal[classOf(ob.Name)] > 0
+			if panicKinds[kindOf(ob.Name)] && hasClaim[topOf(ob.Name)] && !hasUnclaimedPanic[topOf(ob.Name)] {
+				inClaimedClass = true
+			}
 			_, knownUnclaimed := baseline.Unclaimed[id][ob.Name]
 			if isClaimed || (inClaimedClass && !knownUnclaimed && !*updateBaseline) {
 				detail := fmt.Sprintf("status=%s solver=%s vc=%s\nmodel/outputs:\n%s", ob.Status, ob.Solver, ob.File, obOutputs(ob))
@@ -392,6 +416,20 @@ func cmdCheck(args []string) int {
 		}
 	}
 	sort.Strings(missing)
+	// a claimed call-site assertion (hook) that no longer exists: the call it guards has left the
+	// function (moved into a goroutine or another function, or removed), so what the contract
+	// demanded of that call is no longer checked anywhere
+	outOfReach := map[string]bool{}
+	for _, r := range results {
+		if r.OutOfReach != "" {
+			outOfReach[r.Display] = true
+		}
+	}
+	for _, name := range missing {
+		if strings.HasPrefix(kindOf(name), "call(") && !outOfReach[topOf(name)] && !*updateBaseline {
+			report(name, "a call-site assertion discharged on the unchanged tree no longer applies: the call it guards is gone from the function", "", true)
+		}
+	}
 	// bounded stand-ins
 	var boundedEv []map[string]interface{}
 	for _, b := range bounded {
